@@ -4,6 +4,7 @@ pub mod big;
 pub mod elems;
 pub mod events;
 pub mod interp;
+pub mod serde_drv;
 pub mod vals;
 pub mod views;
 
